@@ -208,6 +208,35 @@ def hash_variants():
     return out
 
 
+def run_uncanonicalizable(case, part):
+    """contributing values that cannot be canonicalised (a lone surrogate, an integer beyond the double range): the object is refused, or - if it is taken - it gets the
+    same id every time; never a silently random one while contributing properties are present"""
+    import stix2
+    texts = {
+        "lone-surrogate-in-name": '{"type": "mutex", "spec_version": "2.1", "name": "a\\ud800b"}',
+        "lone-surrogate-in-nested-key": '{"type": "file", "spec_version": "2.1", "name": "f", "extensions": {"extension-definition--3f7f0c5f-5d54-4292-94ea-ec1e1952be31": {"extension_type": "property-extension", "k\\udc00": 1}}}',
+        "integer-beyond-double-range": '{"type": "file", "spec_version": "2.1", "name": "f", "extensions": {"extension-definition--3f7f0c5f-5d54-4292-94ea-ec1e1952be31": {"extension_type": "property-extension", "n": 1%s}}}' % ("0" * 400),
+        "huge-port": '{"type": "network-traffic", "spec_version": "2.1", "protocols": ["tcp"], "src_port": 1, "extensions": {"extension-definition--3f7f0c5f-5d54-4292-94ea-ec1e1952be31": {"extension_type": "property-extension", "v": [1e308, 1%s]}}}' % ("0" * 330),
+    }
+    for label, text in texts.items():
+        ids = []
+        for i in range(3):
+            part.evaluations += 1
+            part.transitions += 1
+            try:
+                o = stix2.parse(text, allow_custom=False)
+                ids.append(o.id)
+            except harness.lib_errors():
+                ids.append("refused")
+            except Exception as e:
+                ids.append("refused:" + type(e).__name__)
+        part.state(("uncanonicalizable", label, tuple(sorted(set(ids)))))
+        part.outcome("uncanonicalizable:" + ("refused" if set(ids) <= {"refused"} or all(x.startswith("refused") for x in ids) else "accepted"))
+        if len(set(ids)) != 1:
+            part.violation("C06/equal-contributing-values-different-ids/uncanonicalizable", "content whose contributing values cannot be canonicalised gets a different (random) id each time it is parsed", dict(case, label=label),
+                           "a refusal, or one id", ids)
+
+
 def run_case(case, part):
     register_custom()
     env.reset()
@@ -217,6 +246,8 @@ def run_case(case, part):
     collect = []
     contributing = sp.classes[key]["id_contributing"]
     part.state((key, case["kind"], case.get("label", "")), nontrivial=True)
+    if case["kind"] == "uncanonicalizable":
+        return run_uncanonicalizable(case, part)
     if case["kind"] == "generated":
         for k2, l2, i2, w2, loc2 in harness.all_cases("2.1", pairs=case.get("pairs", False), keys=[key]):
             if case.get("label") and l2 != case["label"]:
@@ -338,6 +369,7 @@ def run(run):
             cases.append({"kind": "extension-values", "key": key})
     run.mode = "DEV"
     run.part.results = []
+    cases.append({"kind": "uncanonicalizable", "key": "observables:mutex"})
     run.pmap(run_case, cases)
     # equal contributing values <=> equal ids, over everything that was enumerated
     by_canon, by_id = {}, {}
